@@ -55,3 +55,65 @@ def run_shell(args, files, plan=None, timeout=180, workdir=None, stdin=None, lt_
     finally:
         shutil.rmtree(d, ignore_errors=True)
     return res
+
+
+def run_server_request(args, text, plan, language='en-GB', workdir=None, timeout=60):
+    """start `yalafi.shell --as-server <free port>` with the fake proofreader, POST one LanguageTool-style request,
+    stop the server.  -> ShellResult(rc = HTTP status or None, out = body bytes, err = server stderr, timed_out)"""
+    import socket
+    import time
+    import urllib.error
+    import urllib.parse
+    import urllib.request
+    d = tempfile.mkdtemp(prefix='yvm_srv_', dir=workdir)
+    res = ShellResult()
+    res.calls = []
+    try:
+        s0 = socket.socket()
+        s0.bind(('localhost', 0))
+        port = s0.getsockname()[1]
+        s0.close()
+        planf = os.path.join(d, '_lt.plan')
+        with open(planf, 'w') as f:
+            json.dump(plan or {'mode': 'empty'}, f)
+        errf = open(os.path.join(d, '_stderr'), 'wb')
+        cmd = [env.PY, '-m', 'yalafi.shell', '--no-config', '--lt-command', '%s -S %s' % (env.PY, FAKELT),
+               '--as-server', str(port)] + list(args)
+        srv = subprocess.Popen(cmd, cwd=d, env=env.child_env({'YVM_LT_PLAN': planf, 'YVM_LT_LOG': os.path.join(d, '_lt.log')}),
+                               stdout=subprocess.DEVNULL, stderr=errf)
+        res.cmd = cmd
+        t0 = time.time()
+        up = False
+        while time.time() - t0 < timeout:
+            try:
+                socket.create_connection(('localhost', port), timeout=1).close()
+                up = True
+                break
+            except OSError:
+                if srv.poll() is not None:
+                    break
+                time.sleep(0.1)
+        res.timed_out = not up
+        res.rc, res.out = None, b''
+        if up:
+            data = urllib.parse.urlencode({'text': text, 'language': language}).encode('ascii')
+            try:
+                with urllib.request.urlopen('http://localhost:%d/v2/check' % port, data=data, timeout=timeout) as rp:
+                    res.rc = rp.status
+                    res.out = rp.read()
+            except urllib.error.HTTPError as e:
+                res.rc = e.code
+                res.out = e.read()
+            except (OSError, ValueError) as e:
+                res.rc = None
+                res.out = ('%s: %s' % (type(e).__name__, e)).encode()
+        srv.terminate()
+        try:
+            srv.wait(timeout=10)
+        except subprocess.TimeoutExpired:
+            srv.kill()
+        errf.close()
+        res.err = open(os.path.join(d, '_stderr'), 'rb').read().decode('utf-8', 'replace')
+    finally:
+        shutil.rmtree(d, ignore_errors=True)
+    return res
